@@ -12,6 +12,27 @@ IDENTIFIER = "verifstream"
 IANA_ID = -99
 CALLS = []
 COUNTER = [0]
+SALT_MODE = ["default"]      # set by the checks: the shape of the salt is the plug-in's own business
+
+
+def _salt(default):
+    """the salt of this call: any octet string is a legal msgPrivacyParameters value"""
+    mode = SALT_MODE[0]
+    if mode == "default":
+        return default
+    if mode == "counter16":        # a 128-bit big-endian message counter: fifteen leading zero octets for a long time
+        return COUNTER[0].to_bytes(16, "big")
+    if mode == "zeros12":
+        return b"\x00" * 12
+    if mode == "zeros8":
+        return b"\x00" * 8
+    if mode == "empty":
+        return b""
+    if mode == "long40":
+        return (default * 8)[:40]
+    if mode == "ff12":
+        return b"\xff" * 12
+    raise ValueError(mode)
 
 
 def _stream(key, salt, n):
@@ -25,7 +46,7 @@ def _stream(key, salt, n):
 
 def encrypt_data(localised_key, engine_id, engine_boots, engine_time, data):
     COUNTER[0] += 1
-    salt = (engine_boots & 0xFFFFFFFF).to_bytes(4, "big") + COUNTER[0].to_bytes(4, "big")
+    salt = _salt((engine_boots & 0xFFFFFFFF).to_bytes(4, "big") + COUNTER[0].to_bytes(4, "big"))
     ct = bytes(a ^ b for a, b in zip(data, _stream(localised_key, salt, len(data))))
     CALLS.append(dict(op="enc", key=localised_key, engine_id=engine_id,
                       boots=engine_boots, time=engine_time, data=data,
